@@ -470,7 +470,7 @@ def check(tier_name: str, seed: int, max_cases: int | None = None) -> int:
             doc = {"property": PROP, "kit": common.KIT_VERSION, "seed": seed, "case": r["idx"], "recipe": mr, "plan": mp,
                    "expect": {"class": v["viol"]["class"], "signature": v["sig"], "detail": v["viol"].get("detail")},
                    "original": {"n_inits": len(r["recipe"]["inits"]), "plan": v["plan"]}}
-            path = common.write_replay(PROP, f"{seed}-{r['idx']}-{v['viol']['class']}", doc)
+            path = common.write_replay(PROP, f"{seed}-{r['idx']}-{v['viol']['class']}-{sha(key.encode())[:6]}", doc)
             # the replay must reproduce in a brand-new process
             p = subprocess.run([sys.executable, "-m", "dsim", "replay", path], cwd=common.VERIF, capture_output=True,
                                text=True, timeout=300)
@@ -533,6 +533,8 @@ def check(tier_name: str, seed: int, max_cases: int | None = None) -> int:
     ]
     common.write_evidence(PROP, tier_name, seed, "fault_enumeration", coverage, assumptions, wall, len(reported))
 
+    run_digest = sha("".join(f"{r['idx']}:{r['digest']};" for r in sorted(results, key=lambda r: r["idx"])).encode())
+    log(f"RUN-DIGEST {PROP} {run_digest}")
     for text, n in sorted(known_hits.items()):
         log(f"KNOWN-FINDING: property={PROP} {text} [{n} occurrences this run]")
     log(f"C20 {tier_name}: seed={seed} cases={executed}/{ncases} saves={saves} distinct_nontrivial={len(nontrivial)} "
